@@ -1,12 +1,23 @@
-"""C19 — PIN -> TSV conversion: correspondence of Model/PinTsv.v with mokapot.parsers.pin_to_tsv.
+"""C19 — PIN -> TSV conversion: correspondence of Model/PinTsv.v (+ Model/PinVerify.v) with
+mokapot.parsers.pin_to_tsv and the verify step of mokapot.main.
 
 Every case carries the two separators of the real API: "sc" = sep_column (one character) and
 "sp" = sep_protein (any string, also empty / several characters), and "call" = how they are handed
 to the real function: "kw" (keywords), "pos" (positionally) or "default" (not passed at all: only
-for "\\t" / ":"; the model side then runs the default instances used by Model/Fs.v)."""
+for "\\t" / ":"; the model side then runs the default instances used by Model/Fs.v).
+
+"via" = the kind of text stream the real function gets (all are TextIO): "stringio", "file" (real file, text
+mode: universal newlines), "wrapper" (io.TextIOWrapper over BytesIO), "gzip" (gzip.open(.., "rt")), "spooled"
+(tempfile.SpooledTemporaryFile), "main" / "main-emptyout" / "main-leftover" (the module's own command line
+mokapot.parsers.pin_to_tsv.main() with a fresh / an empty / a non-empty output path).  fn == "cli" runs
+mokapot.main's verify step (read_pin replaced by a stub that stops the run) on 1..3 PIN files."""
+import gzip
 import io
 import itertools
+import json
+import locale
 import os
+import sys
 import tempfile
 
 from .. import lib
@@ -19,23 +30,84 @@ RULE = ("cases: (1) exhaustive structured PINs over n_pre<=2, n_post<=1, Default
         "{TAB}x{':' passed by default / by keyword, ';', '|||', '', '::'} + {','}x{':', '|||', ''}; "
         "(2) random structured PINs (fields with inner spaces, '|', ':'; first PSM forced to >=2 proteins in 2/3 of them) "
         "with sep_column in {TAB , ; | space} and sep_protein in {: ; ||| '' :: ' ' TAB / -}; "
+        "(2w) 'wide' random structured PINs: 0..60 feature columns before and 0..10 after the protein column, header names "
+        "that contain 'Proteins' as a substring / in another case, a second 'Proteins' column after the first, a UTF-8 BOM, "
+        "1..40 proteins per PSM, the same protein twice in one PSM, empty fields, later PSMs whose id starts with "
+        "'DefaultDirection', fields with quotes, backslashes, brackets, '%', '$' and (1/3) non-ASCII characters (2-4 byte UTF-8, "
+        "zero-width), DefaultDirection lines with numeric weights, CRLF line ends, sep_protein with regex / format / quote "
+        "characters, a non-ASCII sep_column; every text stream kind (StringIO, file, TextIOWrapper, gzip, SpooledTemporaryFile, "
+        "the module's main() with a fresh / empty / non-empty output path); "
+        "(2z) PINs with ZERO PSMs (header only, header + DefaultDirection line); "
+        "(2b) large files (10-60 KiB) whose only irregular line comes late; (2c) larger files: 1001-4000 (quick) / up to 30000 "
+        "(thorough) PSMs = 0.1-2 MB, the irregular line (several proteins / missing field / surplus field) in the last third, on "
+        "the very last line without newline, or nowhere; one PSM line of 9-10 KiB (longer than the 8 KiB stream buffer); "
         "(3) malformed stream: random texts over a token alphabet with ragged rows, empty fields/lines, missing Proteins, "
         "\\r, edge whitespace, for several separator pairs; each text goes to pin_to_valid_tsv and is_valid_tsv (StringIO and, "
-        "for a share, real files); (4) convert_line_pin_to_tsv on rows of structured PINs and on random lines with arbitrary "
-        "idx_protein_col / n_col (negative slice ends included); (5) parse_pin_header_columns on header-like strings. "
-        "distinct = distinct (entry, separators, call form, text); non-trivial = a row with >=2 proteins or a protein column "
-        "that is not last or non-default separators or a malformed text")
+        "for a share, real files where \\r / \\r\\n are line ends); (3e) an enumerated list of edge texts (variants of the second "
+        "line around 'DefaultDirection': exact, longer, shorter, other case, leading blank / separator, on line 3, twice, nothing "
+        "after it; blank lines; tiny files; edge separators; duplicate / near-miss protein columns; BOM; \\r\\n, \\r, \\n\\r line "
+        "ends) x 3 separator pairs x StringIO / file (/ gzip); (4) convert_line_pin_to_tsv on rows of structured PINs and "
+        "on random lines with arbitrary idx_protein_col / n_col (negative slice ends included); (5) parse_pin_header_columns on "
+        "header-like strings; (6) cli: mokapot.main's verify step on 1..3 files (already rectangular / ragged / ragged only on "
+        "the last line / with DefaultDirection line / CRLF / non-ASCII / short line / no PSM / no Proteins column, in every "
+        "order, file names with spaces, equal base names in different directories, no extension), every file compared with "
+        "Model/PinVerify.v (pin_verify_text); "
+        "(7) WITHOUT the model, by the property oracle alone (extra_checks): PSM lines of 70-300 KiB (3000-12000 proteins; the "
+        "extracted model reverses lines with a quadratic list function, by theorem C19_file its answer on these well-formed "
+        "PINs is the table the oracle expects), multi-character sep_column ('||', ', ', '<>'; the model's sep_column is one "
+        "character); in addition the property oracle is evaluated on every structured / cli / is_valid case of the run. "
+        "distinct = distinct (entry, separators, call form, stream kind, text); non-trivial = a PSM with >=2 proteins or a "
+        "DefaultDirection line (for a converted table: its source had one), a malformed text of >=2 lines, a random line of >=2 "
+        "fields, a non-empty header string; PINs that are already rectangular, zero-PSM PINs and non-default separators on "
+        "single-protein rows count as trivial")
 ASSUMPTIONS = [
-    "str.strip() is modelled for ASCII whitespace (9-13, 28-32) only; generated texts are ASCII",
-    "text-mode universal newline translation is exercised (real-file cases) but not modelled: those cases contain no \\r",
-    "sep_column is ONE character (the model's sepc : Z); a multi-character or empty sep_column (str.split raises "
-    "ValueError on '') is outside the model; sep_protein is an arbitrary string",
+    "str.strip() is modelled for ASCII whitespace (9-13, 28-32) only; generated texts contain no non-ASCII character c with "
+    "c.isspace() (\\x85, \\xa0, \\u2000-\\u200a, \\u2028, \\u2029, \\u3000 ...); other non-ASCII characters are generated",
+    "universal newline translation of text-mode files (\\r\\n and \\r become \\n; real files, TextIOWrapper, gzip, main(), the "
+    "CLI) is not modelled in Coq: the harness hands the model the translated text (str.replace) for those stream kinds",
+    "sep_column is ONE character (the model's sepc : Z); a multi-character sep_column is checked by the property oracle only "
+    "(extra_checks), an empty one (str.split raises ValueError) not at all; sep_protein is an arbitrary string",
+    "files are written and read back by the harness in the encoding the interpreter uses for open() (UTF-8 under ./check); "
+    "non-ASCII characters are generated only if that encoding can represent them",
+    "the CLI cases replace mokapot.mokapot.read_pin by a stub that raises, so that main() stops after its verify step; a file "
+    "that makes the step raise is only ever the last file of a command line",
 ]
-TRUSTED_EXTRA = ["io.StringIO / open() line iteration (oracle: lines end at \\n)"]
+TRUSTED_EXTRA = ["io.StringIO / open() / TextIOWrapper / gzip / SpooledTemporaryFile line iteration (oracle: lines end at \\n)",
+                 "argparse of pin_to_tsv.main() and of mokapot.Config (arguments are passed as --opt=value / as paths)"]
+
+KEY_ZERO = "zero-psm:StopIteration"
+KEY_MAIN_APPEND = "pin_to_tsv.main:output-opened-in-append-mode"
 
 DD = "DefaultDirection"
 TAB = "\t"
 SEP_PROTS = [":", ";", "|||", "", "::"]
+
+# stream kinds whose reader translates \r\n and \r to \n (newline=None)
+TRANSLATING = ("file", "wrapper", "gzip", "main", "main-emptyout", "main-leftover")
+
+# non-ASCII characters used in fields: 2-, 3- and 4-byte UTF-8, soft hyphen, zero-width space, BOM; none is whitespace
+NONASCII = "\u00e9\u00df\u03b2\u0416\u4e2d\u65e5\U0001f600\U0001d518\u00ad\u200b\ufeff"
+assert not any(ch.isspace() for ch in NONASCII)
+
+
+def _nonascii_ok():
+    """can the encoding that open() uses by default (the one mokapot's own open() calls use) represent them?"""
+    try:
+        (NONASCII + "\u00a6\u00b7").encode(locale.getpreferredencoding(False))
+        return True
+    except (UnicodeError, LookupError):
+        return False
+
+
+def _universal(text):
+    return text.replace("\r\n", "\n").replace("\r", "\n")
+
+
+def _model_text(c):
+    """the text as the real function's line iteration sees it"""
+    if c.get("via", "stringio") in TRANSLATING:
+        return _universal(c["text"])
+    return c["text"]
 
 
 def _seps(c):
@@ -69,21 +141,43 @@ def _septag(sc, sp, call):
     return [f"sc={sc!r}", f"sp={sp!r}", f"call={call}"]
 
 
-def _mk(struct, sc=TAB, sp=":", call="kw", via="stringio"):
+def _bucket(name, n, exact):
+    return f"{name}={n}" if n <= exact else f"{name}>{exact}"
+
+
+def _multi(struct):
+    return any(len(r["prots"]) >= 2 for r in struct["rows"])
+
+
+def _mk(struct, sc=TAB, sp=":", call="kw", via="stringio", crlf=False, leftover=None):
     txt = render(struct, sc)
-    first = struct["rows"][0]
-    tags = ["structured", f"rows={len(struct['rows'])}", f"npre={len(struct['hdr_pre'])}",
-            f"npost={len(struct['hdr_post'])}", "dd" if struct["dd"] is not None else "nodd", via,
-            ("first-multi-" if len(first["prots"]) >= 2 else "first-single-") + ("dd" if struct["dd"] is not None else "nodd"),
-            ] + _septag(sc, sp, call)
+    if crlf:
+        txt = txt.replace("\n", "\r\n")
+    rows = struct["rows"]
+    ddtag = "dd" if struct["dd"] is not None else "nodd"
+    if rows:
+        firsttag = ("first-multi-" if len(rows[0]["prots"]) >= 2 else "first-single-") + ddtag
+    else:
+        firsttag = "zero-psm-" + ddtag
+    tags = ["structured", _bucket("rows", len(rows), 8) if len(rows) < 100 else f"rows={len(rows)}",
+            _bucket("npre", len(struct["hdr_pre"]), 5), _bucket("npost", len(struct["hdr_post"]), 4), ddtag, via, firsttag,
+            ] + (["crlf"] if crlf else []) + _septag(sc, sp, call)
+    via_valid = "file" if via.startswith("main") else via
     base = {"sc": sc, "sp": sp, "call": call, "via": via}
+    basev = dict(base, via=via_valid)
     exp = expected_tsv(struct, sc, sp)
+    src = {"src_multi": _multi(struct), "src_rows": len(rows)}
+    conv = dict(base, fn="convert_file", text=txt, struct=struct, tags=tags)
+    if leftover is not None:
+        conv["leftover"] = leftover
     out = [
-        dict(base, fn="convert_file", text=txt, struct=struct, tags=tags),
-        dict(base, fn="is_valid", text=txt, struct=struct, tags=tags),
-        dict(base, fn="is_valid", text=exp, tags=["tsv-of-structured"] + _septag(sc, sp, call)),
-        dict(base, fn="convert_file", text=exp, tags=["tsv-of-structured"] + _septag(sc, sp, call)),
+        conv,
+        dict(basev, fn="is_valid", text=txt, struct=struct, tags=tags),
+        dict(basev, fn="is_valid", text=exp, tags=["tsv-of-structured"] + _septag(sc, sp, call), **src),
+        dict(base, fn="convert_file", text=exp, tags=["tsv-of-structured"] + _septag(sc, sp, call), **src),
     ]
+    if via == "main-leftover":
+        out[3]["via"] = "main"
     return out
 
 
@@ -95,12 +189,12 @@ def _line_cases(struct, sc, sp, call):
     for r in struct["rows"]:
         out.append({"fn": "convert_line", "sc": sc, "sp": sp, "call": call,
                     "line": sc.join(r["pre"] + r["prots"] + r["post"]), "idx": idx, "ncol": ncol, "row": r,
-                    "tags": ["line-structured", f"nprot={len(r['prots'])}"] + _septag(sc, sp, call)})
+                    "tags": ["line-structured", _bucket("nprot", len(r["prots"]), 5)] + _septag(sc, sp, call)})
     return out
 
 
-def gen(ctx):
-    cases = []
+# ------------------------------------------------------------------------------------------------ generators
+def _gen_exhaustive(ctx, cases):
     # (1) exhaustive small scope x separator pairs
     maxrows = 3 if ctx.thorough else 2
     pairs = [(TAB, ":", "default"), (TAB, ":", "kw"), (TAB, ";", "kw"), (TAB, "|||", "kw"), (TAB, "", "kw"),
@@ -119,6 +213,9 @@ def gen(ctx):
                     cases.extend(_mk(st, sc, sp, call))
                     if fnl and not dd and nrows == 1:
                         cases.extend(_line_cases(st, sc, sp, call))
+
+
+def _gen_structured(ctx, cases):
     # (2) random structured
     rng = ctx.sub("structured")
     alpha0 = "abXYZ019|.-_:+ "
@@ -170,6 +267,120 @@ def gen(ctx):
         cases.extend(_mk(st, sc, sp, call, via))
         if k % 2 == 0:
             cases.extend(_line_cases(st, sc, sp, call))
+
+
+HDR_NAMES = ["SpecId", "Label", "ScanNr", "ExpMass", "CalcMass", "lnrSp", "deltLCn", "Xcorr", "Charge1", "Peptide",
+             "nProteins", "ProteinsCount", "proteins", "PROTEINS", "Protein", "Proteins2", "enzInt"]
+WIDE_VIAS = ["stringio", "file", "wrapper", "gzip", "spooled", "main", "stringio", "file", "main-emptyout"]
+
+
+def _wide_struct(rng, sc, nonascii, dd_p=0.4, force_multi_first=None, allow_ddrow=True):
+    """a well-formed PIN (the [wf] of Proofs/PinTsvP.v) from the wide value domains"""
+    alpha = ("abXYZ019|.-_:+ \"'\\,;/()[]{}%$&*?^#@!~=<>`" + (NONASCII if nonascii else "")).replace(sc, "")
+
+    def field(edge=False):
+        n = rng.randint(1, 6)
+        sx = "".join(rng.choice(alpha) for _ in range(n))
+        if edge:
+            sx = sx.strip() or "x"
+        return sx
+    npre = rng.choice([0, 1, 2, 3, 5, 5, 12, 30, 60])
+    npost = rng.choice([0, 0, 0, 1, 2, 4, 10])
+    nrows = rng.randint(1, 8)
+    rows = []
+    for ri in range(nrows):
+        pre = [field() for _ in range(npre)]
+        nprot = rng.choice([1, 1, 2, 3, 5, 12, 40])
+        if ri == 0 and force_multi_first:
+            nprot = rng.choice([2, 3, 4, 12])
+        prots = [field() for _ in range(nprot)]
+        post = [field() for _ in range(npost)]
+        if nprot >= 2 and rng.random() < 0.3:                    # the same protein listed twice
+            i, j = sorted(rng.sample(range(nprot), 2))
+            prots[i] = prots[j] = prots[j].strip() or "dup"
+        for lst_ in (pre, prots, post):                          # empty fields
+            for j in range(len(lst_)):
+                if rng.random() < 0.06:
+                    lst_[j] = ""
+        if allow_ddrow and ri >= 1 and rng.random() < 0.1:       # a later PSM whose first field starts with DefaultDirection
+            if pre:
+                pre[0] = DD + "_%d" % ri
+            else:
+                prots[0] = DD + "_%d" % ri
+        # first / last field of the line must survive strip() and be non-empty
+        if pre:
+            pre[0] = pre[0].strip() or field(True)
+        else:
+            prots[0] = prots[0].strip() or field(True)
+        if post:
+            post[-1] = post[-1].strip() or field(True)
+        else:
+            prots[-1] = prots[-1].strip() or field(True)
+        rows.append({"pre": pre, "prots": prots, "post": post})
+    names = HDR_NAMES[:]
+    rng.shuffle(names)
+    hp = [(names[j] if j < len(names) else "f%d" % j) for j in range(npre)]
+    ht = ["d%d" % j for j in range(npost)]
+    if nonascii and hp and rng.random() < 0.3:
+        hp[0] = "\ufeff" + hp[0]                                 # UTF-8 byte order mark in front of the header
+    if ht and rng.random() < 0.2:
+        ht[rng.randrange(len(ht))] = "Proteins"                  # a second Proteins column: the first one counts
+    dd = None
+    if rng.random() < dd_p:
+        if rng.random() < 0.5:
+            dd = DD + (sc + "-") * (npre + npost)
+        else:
+            dd = DD + "".join(sc + rng.choice(["-", "1", "-1", "0.5", "-0.25", "0"]) for _ in range(npre + npost))
+    return {"hdr_pre": hp, "hdr_post": ht, "dd": dd, "rows": rows, "final_nl": rng.random() < 0.6}
+
+
+def _gen_wide(ctx, cases):
+    # (2w) the wide value domains
+    rng = ctx.sub("wide")
+    na_ok = _nonascii_ok()
+    n = 1200 if ctx.thorough else 240
+    sc_pool = [TAB] * 5 + [",", ";", "|", " "] + (["\u00a6"] if na_ok else [])
+    sp_pool = [":", ":", ":", ";", "|||", "", "::", " ", "/", "\\", "\\1", "\\g<0>", "%s", "{}", "{0}", "$&", ".*", "\"", "''"] \
+        + (["\u00b7"] if na_ok else [])
+    for k in range(n):
+        sc = rng.choice(sc_pool)
+        sp = rng.choice(sp_pool)
+        call = "default" if (sc == TAB and sp == ":" and rng.random() < 0.5) else rng.choice(["kw", "kw", "pos"])
+        nonascii = na_ok and k % 3 == 0
+        st = _wide_struct(rng, sc, nonascii, force_multi_first=(k % 3 != 1))
+        via = WIDE_VIAS[k % len(WIDE_VIAS)]
+        crlf = rng.random() < 0.25
+        cs = _mk(st, sc, sp, call, via, crlf)
+        for c in cs:
+            c["tags"] = c["tags"] + ["wide"] + (["non-ascii"] if nonascii else [])
+        cases.extend(cs)
+        if k % 3 == 0:
+            cases.extend(_line_cases(st, sc, sp, call))
+    # the module's own command line with an output path that already holds something
+    for k in range(12 if ctx.thorough else 4):
+        sc, sp = (TAB, ":") if k % 2 == 0 else (",", "|||")
+        st = _wide_struct(rng, sc, False, force_multi_first=True)
+        left = ["old content\n", "h\tProteins\nx\tP\n", "no newline at the end", "\n"][k % 4]
+        c = _mk(st, sc, sp, "default" if k % 2 == 0 else "kw", "main-leftover", leftover=left)[0]
+        c["tags"] = c["tags"] + ["wide"]
+        cases.append(c)
+
+
+def _gen_zero(ctx, cases):
+    # (2z) no PSM at all
+    k = 0
+    for npre, npost, dd, fnl in itertools.product((0, 2), (0, 1), (False, True), (False, True)):
+        for sc, sp, call in [(TAB, ":", "default"), (",", "|||", "kw")]:
+            st = {"hdr_pre": [f"h{j}" for j in range(npre)], "hdr_post": [f"t{j}" for j in range(npost)],
+                  "dd": (DD + (sc + "-") * (npre + npost)) if dd else None, "rows": [], "final_nl": fnl}
+            cs = _mk(st, sc, sp, call, "file" if k % 2 else "stringio")
+            for c in cs:
+                c["tags"] = c["tags"] + ["zero-psm"]
+            cases.extend(cs)
+            k += 1
+
+
+def _gen_large(ctx, cases):
     # (2b) large files (beyond any I/O buffer size: 10-60 KiB) whose only irregular line comes late: a multi-protein PSM,
     #      a short line or a long line at a random position in the last third; via file and StringIO
     rng = ctx.sub("large")
@@ -199,6 +410,58 @@ def gen(ctx):
             for c in _mk(st, TAB, ":", "default", via):
                 c["tags"] = c["tags"] + ["large", "late-" + kind, "bytes>%dk" % (len(c["text"]) // 1024)]
                 cases.append(c)
+
+
+def _big_struct(nrows, npre, npost, multi_at=None, nprot=3, final_nl=True, dd=False):
+    rows = []
+    for ri in range(nrows):
+        prots = ["sp|P%05d|PROT_%d" % (ri, ri)]
+        if ri == multi_at:
+            prots += ["sp|Q%05d|ALT%d" % (ri, j) for j in range(nprot - 1)]
+        rows.append({"pre": ["f%d_%d" % (ri, j) for j in range(npre)], "prots": prots,
+                     "post": ["g%d_%d" % (ri, j) for j in range(npost)]})
+    return {"hdr_pre": ["c%d" % j for j in range(npre)], "hdr_post": ["d%d" % j for j in range(npost)],
+            "dd": (DD + (TAB + "-") * (npre + npost)) if dd else None, "rows": rows, "final_nl": final_nl}
+
+
+def _gen_larger(ctx, cases):
+    # (2c) files of 1500 .. 12000 PSMs (more lines than any plausible line-count buffer, 0.1 .. 1 MB) and one long line
+    rng = ctx.sub("larger")
+    sizes = [1500, 4000, 1500, 2500, 4000, 1001] + ([12000, 8000, 3000, 30000, 2000, 6000, 20000, 1002] if ctx.thorough else [])
+    vias = ["file", "stringio", "wrapper", "gzip", "file", "stringio"]
+    for k, nrows in enumerate(sizes):
+        npre, npost = rng.randint(1, 4), rng.randint(0, 2)
+        kind = ["late-multi-protein", "last-line-multi-protein", "late-short-line", "late-surplus-field", "regular",
+                "last-line-multi-protein"][k % 6]
+        via = vias[k % len(vias)]
+        late = rng.randrange(2 * nrows // 3, nrows - 1)
+        tags = ["larger", kind]
+        if kind in ("late-multi-protein", "last-line-multi-protein", "regular"):
+            at = {"late-multi-protein": late, "last-line-multi-protein": nrows - 1, "regular": None}[kind]
+            st = _big_struct(nrows, npre, npost, multi_at=at, final_nl=(kind != "last-line-multi-protein"), dd=(k % 4 == 3))
+            for c in _mk(st, TAB, ":", "default", via):
+                c["tags"] = c["tags"] + tags + ["bytes>%dk" % (len(c["text"]) // 1024)]
+                cases.append(c)
+        else:
+            st = _big_struct(nrows, npre + 1, npost)
+            lines = render(st, TAB).split("\n")
+            fs = lines[1 + late].split(TAB)
+            lines[1 + late] = TAB.join(fs[:-1] if kind == "late-short-line" else fs + ["surplus"])
+            txt = "\n".join(lines)
+            for fn in ("is_valid", "convert_file"):
+                cases.append({"fn": fn, "sc": TAB, "sp": ":", "call": "default", "via": via, "text": txt,
+                              "tags": tags + ["malformed-large", via, "rows=%d" % nrows, "bytes>%dk" % (len(txt) // 1024)]})
+    # a PSM line longer than the 8 KiB buffer of a text file (the model needs seconds for it: few cases)
+    for k in range(3 if ctx.thorough else 1):
+        nprot = [380, 420, 400][k]
+        st = _big_struct(6, 2, k % 2, multi_at=[3, 0, 5][k], nprot=nprot, final_nl=(k != 2))
+        via = ["file", "stringio", "gzip"][k]
+        for c in _mk(st, TAB, ":", "default", via)[:2]:
+            c["tags"] = c["tags"] + ["long-line", "line>%dk" % (max(len(l) for l in c["text"].split("\n")) // 1024)]
+            cases.append(c)
+
+
+def _gen_malformed(ctx, cases):
     # (3) malformed / free-form stream
     rng = ctx.sub("malformed")
     nmal = 1500 if ctx.thorough else 400
@@ -221,9 +484,74 @@ def gen(ctx):
                 fs = [rng.choice(["a", "b", "", " ", "p q", DD, ":", "\r"]) for _ in range(nf)]
                 body.append(sc.join(fs))
             txt = "\n".join([sc.join(hdr)] + body) + rng.choice(["", "\n", "\n\n", " \n"])
+        # every 5th text through a real file (\r and \r\n are line ends there), every 7th through a SpooledTemporaryFile
+        via = "file" if k % 5 == 0 else ("spooled" if k % 7 == 0 else "stringio")
         for fn in ("convert_file", "is_valid"):
-            cases.append({"fn": fn, "text": txt, "sc": sc, "sp": sp, "call": call, "via": "stringio",
-                          "tags": ["malformed"] + _septag(sc, sp, call)})
+            cases.append({"fn": fn, "text": txt, "sc": sc, "sp": sp, "call": call, "via": via,
+                          "tags": ["malformed", via] + _septag(sc, sp, call)})
+
+
+EDGE_TEXTS = [
+    "", "\n", "\n\n", "Proteins", "Proteins\n", "Proteins\n\n", "Proteins\n\n\n", "a{s}Proteins\n\n", "Proteins\nP", "Proteins\nP\n",
+    " Proteins \n P \n",
+    # what counts as a DefaultDirection line, and where
+    "a{s}Proteins\nDefaultDirection{s}-\nx{s}P1{s}P2\n",
+    "a{s}Proteins\nDefaultDirection\nx{s}P1{s}P2\n",
+    "a{s}Proteins\nDefaultDirectionX{s}-\nx{s}P1{s}P2\n",
+    "a{s}Proteins\n DefaultDirection{s}-\nx{s}P1{s}P2\n",
+    "a{s}Proteins\n{s}DefaultDirection{s}-\nx{s}P1\n",
+    "a{s}Proteins\ndefaultdirection{s}-\nx{s}P1{s}P2\n",
+    "a{s}Proteins\nDEFAULTDIRECTION{s}-\nx{s}P1\n",
+    "a{s}Proteins\nDefaultDirectio{s}-\nx{s}P1\n",
+    "a{s}Proteins\nDefault Direction{s}-\nx{s}P1\n",
+    "a{s}Proteins\nx{s}DefaultDirection\ny{s}P1{s}P2\n",
+    "a{s}Proteins\nx{s}P0\nDefaultDirection{s}-\ny{s}P1{s}P2\n",
+    "a{s}Proteins\nDefaultDirection{s}-\nDefaultDirection{s}-\ny{s}P1{s}P2\n",
+    "a{s}Proteins\nDefaultDirection{s}-\n",
+    "a{s}Proteins\nDefaultDirection{s}-",
+    "a{s}Proteins\nDefaultDirection{s}-{s}-{s}-\nx{s}P1\n",
+    "a{s}Proteins\nDefaultDirection\n\nx{s}P1\n",
+    # blank lines, edge separators
+    "a{s}Proteins\n\nx{s}P1{s}P2\n",
+    "a{s}Proteins\nx{s}P1{s}P2\n\n",
+    "a{s}Proteins\nx{s}P1{s}P2\n\ny{s}P3\n",
+    "a{s}Proteins\nx{s}P1\n \n",
+    "a{s}Proteins{s}\nx{s}P1{s}\n",
+    "{s}a{s}Proteins\n{s}x{s}P1\n",
+    "a{s}Proteins\nx{s}{s}P2\n",
+    "a{s}Proteins\nx{s}P1{s}{s}P3\n",
+    # the protein column
+    "a{s}Proteins{s}Proteins\nx{s}P1{s}P2{s}P3\n",
+    "Proteins{s}a\nP1{s}P2{s}x\nP3{s}y\n",
+    "a{s}proteins\nx{s}P1\n",
+    "a{s} Proteins\nx{s}P1\n",
+    "a{s}Proteins \nx{s}P1{s}P2\n",
+    "a{s}Proteins2{s}Proteins\nx{s}q{s}P1{s}P2\n",
+    "\ufeffProteins{s}a\nP1{s}P2{s}x\n",
+    "\ufeffa{s}Proteins\nx{s}P1{s}P2\n",
+    # line ends
+    "a{s}Proteins\r\nx{s}P1{s}P2\r\n",
+    "a{s}Proteins\rx{s}P1{s}P2\r",
+    "a{s}Proteins\r\nDefaultDirection{s}-\r\nx{s}P1{s}P2",
+    "a{s}Proteins\n\rx{s}P1{s}P2\n",
+]
+
+
+def _gen_edge(ctx, cases):
+    # (3e) enumerated edge texts: what counts as a DefaultDirection line, blank lines, tiny files, line ends
+    na_ok = _nonascii_ok()
+    for sc, sp, call in [(TAB, ":", "default"), (",", ";", "kw"), (TAB, "|||", "pos")]:
+        for t in EDGE_TEXTS:
+            if "\ufeff" in t and not na_ok:
+                continue
+            txt = t.replace("{s}", sc)
+            for via in ("stringio", "file", "gzip") if ctx.thorough else ("stringio", "file"):
+                for fn in ("convert_file", "is_valid"):
+                    cases.append({"fn": fn, "text": txt, "sc": sc, "sp": sp, "call": call, "via": via,
+                                  "tags": ["malformed", "edge", via] + _septag(sc, sp, call)})
+
+
+def _gen_lines(ctx, cases):
     # (4) convert_line_pin_to_tsv on random lines with arbitrary idx / n_col
     rng = ctx.sub("lines")
     nline = 900 if ctx.thorough else 300
@@ -237,6 +565,9 @@ def gen(ctx):
         cases.append({"fn": "convert_line", "sc": sc, "sp": sp, "call": call, "line": line,
                       "idx": rng.randint(0, nf + 2), "ncol": rng.randint(0, nf + 4),
                       "tags": ["line-random"] + _septag(sc, sp, call)})
+
+
+def _gen_headers(ctx, cases):
     # (5) parse_pin_header_columns
     rng = ctx.sub("headers")
     nhdr = 300 if ctx.thorough else 120
@@ -248,31 +579,129 @@ def gen(ctx):
         header = rng.choice(["", " ", "\n"]) + sc.join(cols) + rng.choice(["", "\n", " \n", sc])
         cases.append({"fn": "parse_header", "sc": sc, "call": call, "header": header,
                       "tags": ["header"] + _septag(sc, None, call)})
+
+
+CLI_KINDS = ["valid", "valid", "ragged", "ragged", "ragged-last-line", "dd", "dd-ragged", "crlf-ragged", "crlf-valid",
+             "nonascii-ragged", "nonascii-valid", "short-line", "wide"]
+CLI_LAST_ONLY = ["header-only", "no-proteins-column", "empty-file"]
+CLI_NAMES = [["a.pin", "b.pin", "c.pin"], ["my file.pin", "b c d.pin", "x.pin"], ["s1/x.pin", "s2/x.pin", "s3/x.pin"],
+             ["noext", "y.txt", "z.tsv"], ["a.pin", "a.pin.bak", "a.tsv"]]
+
+
+def _cli_file(rng, kind, na_ok):
+    """-> (text on disk, struct or None)"""
+    if kind in ("header-only", "no-proteins-column", "empty-file"):
+        if kind == "empty-file":
+            return "", None
+        if kind == "header-only":
+            return rng.choice(["SpecId\tLabel\tProteins\n", "SpecId\tLabel\tProteins", "Proteins\n"]), None
+        return "SpecId\tLabel\tprots\nx\t1\tP1\tP2\n", None
+    nonascii = na_ok and kind.startswith("nonascii")
+    if kind == "wide":
+        st = _wide_struct(rng, TAB, na_ok and rng.random() < 0.5)
+    else:
+        ragged = "ragged" in kind
+        st = _wide_struct(rng, TAB, nonascii, dd_p=0.0, force_multi_first=False, allow_ddrow=False)
+        nrows = len(st["rows"])
+        for ri, r in enumerate(st["rows"]):
+            keep = 1
+            if ragged and kind == "ragged-last-line":
+                keep = len(r["prots"]) if ri == nrows - 1 else 1
+            elif ragged:
+                keep = len(r["prots"])
+            r["prots"] = r["prots"][:keep]
+            if not r["post"]:
+                r["prots"][-1] = r["prots"][-1].strip() or "p"
+            if not r["pre"]:
+                r["prots"][0] = r["prots"][0].strip() or "q"
+        if ragged and not _multi(st):
+            tgt = st["rows"][-1] if kind == "ragged-last-line" else st["rows"][rng.randrange(nrows)]
+            tgt["prots"] = [tgt["prots"][0] or "p0", "extra1", "extra2"]
+        if kind == "ragged-last-line":
+            st["final_nl"] = rng.random() < 0.5
+        if kind.startswith("dd"):
+            st["dd"] = DD + (TAB + "-") * (len(st["hdr_pre"]) + len(st["hdr_post"]))
+    txt = render(st, TAB)
+    if kind == "short-line":
+        lines = txt.split("\n")
+        if len(st["hdr_pre"]) + len(st["hdr_post"]) > 0 and len(lines) > 2:
+            j = rng.randrange(1, len(lines) - (1 if lines[-1] == "" else 0))
+            lines[j] = TAB.join(lines[j].split(TAB)[:-1]) or "x"
+            txt = "\n".join(lines)
+            st = None
+    if kind.startswith("crlf"):
+        txt = txt.replace("\n", "\r\n")
+    return txt, st
+
+
+def _gen_cli(ctx, cases):
+    # (6) the verify step of mokapot.main on 1..3 files
+    rng = ctx.sub("cli")
+    na_ok = _nonascii_ok()
+    nsc = 400 if ctx.thorough else 80
+    for k in range(nsc):
+        nfiles = rng.choice([1, 2, 2, 2, 3, 3])
+        kinds = [rng.choice(CLI_KINDS) for _ in range(nfiles)]
+        if k % 3 == 0 and nfiles >= 2:
+            kinds[0] = rng.choice(["valid", "crlf-valid", "nonascii-valid"])      # an untouched file before one that is converted
+            kinds[1] = rng.choice(["ragged", "dd", "ragged-last-line", "nonascii-ragged"])
+        if k % 9 == 4:
+            kinds[-1] = rng.choice(CLI_LAST_ONLY)
+        names = CLI_NAMES[k % len(CLI_NAMES)][:nfiles]
+        if na_ok and k % 10 == 7:
+            names = ["\u00fcn\u00ef %d.pin" % j for j in range(nfiles)]
+        files, structs = [], []
+        for kd in kinds:
+            t, st = _cli_file(rng, kd, na_ok)
+            files.append(t)
+            structs.append(st)
+        for j in range(nfiles):
+            cases.append({"fn": "cli", "files": files, "names": names, "k": j, "struct": structs[j], "kind": kinds[j],
+                          "tags": ["cli", "cli-files=%d" % nfiles, "cli-kind=" + kinds[j], "cli-pos=%d" % j]
+                          + (["cli-after-valid"] if j > 0 and all(x.endswith("valid") for x in kinds[:j]) else [])})
+
+
+def gen(ctx):
+    cases = []
+    _gen_exhaustive(ctx, cases)
+    _gen_structured(ctx, cases)
+    _gen_wide(ctx, cases)
+    _gen_zero(ctx, cases)
+    _gen_large(ctx, cases)
+    _gen_larger(ctx, cases)
+    _gen_malformed(ctx, cases)
+    _gen_edge(ctx, cases)
+    _gen_lines(ctx, cases)
+    _gen_headers(ctx, cases)
+    _gen_cli(ctx, cases)
     return cases
 
 
+# ------------------------------------------------------------------------------------------------ model side
 def encode(c):
     sc, sp, call = _seps(c)
     fn = c["fn"]
     if fn == "convert_file":
         if call == "default":
-            return "c19.convert_file_default " + lib.s(c["text"])
-        return "c19.convert_file " + lib.z(ord(sc)) + " " + lib.s(sp) + " " + lib.s(c["text"])
+            return "c19.convert_file_default " + lib.s(_model_text(c))
+        return "c19.convert_file " + lib.z(ord(sc)) + " " + lib.s(sp) + " " + lib.s(_model_text(c))
     if fn == "is_valid":
         if call == "default":
-            return "c19.is_valid_default " + lib.s(c["text"])
-        return "c19.is_valid " + lib.z(ord(sc)) + " " + lib.s(c["text"])
+            return "c19.is_valid_default " + lib.s(_model_text(c))
+        return "c19.is_valid " + lib.z(ord(sc)) + " " + lib.s(_model_text(c))
     if fn == "convert_line":
         return ("c19.convert_line " + lib.z(ord(sc)) + " " + lib.s(sp) + " " + lib.s(c["line"]) + " "
                 + lib.z(c["idx"]) + " " + lib.z(c["ncol"]))
     if fn == "parse_header":
         return "c19.parse_header " + lib.z(ord(sc)) + " " + lib.s(c["header"])
+    if fn == "cli":
+        return "c19.verify_text " + lib.s(_universal(c["files"][c["k"]]))
     raise ValueError(fn)
 
 
 def decode(c, t):
     fn = c["fn"]
-    if fn == "convert_file":
+    if fn in ("convert_file", "cli"):
         return t.result(t.s)
     if fn == "is_valid":
         return t.result(t.b)
@@ -281,6 +710,7 @@ def decode(c, t):
     return t.result(lambda: [t.nat(), t.nat()])
 
 
+# ------------------------------------------------------------------------------------------------ implementation side
 def _pin_to_valid_tsv(fi, fo, sc, sp, call):
     from mokapot.parsers.pin_to_tsv import pin_to_valid_tsv
     if call == "default":
@@ -301,30 +731,95 @@ def _is_valid_tsv(fi, sc, call):
     return is_valid_tsv(f_in=fi, sep_column=sc)
 
 
-def _convert(text, via, sc=TAB, sp=":", call="kw"):
-    if via == "file":
-        with tempfile.TemporaryDirectory() as d:
-            pi, po = os.path.join(d, "in.pin"), os.path.join(d, "out.tsv")
+def _run_module_main(argv):
+    """mokapot.parsers.pin_to_tsv.main() as `python -m mokapot.parsers.pin_to_tsv <argv>` would run it"""
+    import mokapot.parsers.pin_to_tsv as m
+    old = sys.argv
+    sys.argv = ["pin_to_tsv"] + list(argv)
+    try:
+        try:
+            m.main()
+        except SystemExit as e:           # argparse refused the command line
+            raise RuntimeError("SystemExit %r" % (e.code,))
+    finally:
+        sys.argv = old
+
+
+def _convert(text, via, sc=TAB, sp=":", call="kw", leftover=None):
+    if via == "stringio":
+        out = io.StringIO()
+        _pin_to_valid_tsv(io.StringIO(text), out, sc, sp, call)
+        return out.getvalue()
+    if via == "wrapper":
+        fi = io.TextIOWrapper(io.BytesIO(text.encode("utf-8")), encoding="utf-8")
+        raw = io.BytesIO()
+        fo = io.TextIOWrapper(raw, encoding="utf-8", newline="")
+        _pin_to_valid_tsv(fi, fo, sc, sp, call)
+        fo.flush()
+        return raw.getvalue().decode("utf-8")
+    if via == "spooled":
+        kw = dict(max_size=64, mode="w+", encoding="utf-8", newline="\n")
+        with tempfile.SpooledTemporaryFile(**kw) as fi, tempfile.SpooledTemporaryFile(**kw) as fo:
+            fi.write(text)
+            fi.seek(0)
+            _pin_to_valid_tsv(fi, fo, sc, sp, call)
+            fo.seek(0)
+            return fo.read()
+    with tempfile.TemporaryDirectory() as d:
+        pi, po = os.path.join(d, "in.pin"), os.path.join(d, "out.tsv")
+        if via == "gzip":
+            with gzip.open(pi, "wt", encoding="utf-8", newline="") as f:
+                f.write(text)
+            with gzip.open(pi, "rt", encoding="utf-8") as fi, gzip.open(po, "wt", encoding="utf-8", newline="") as fo:
+                _pin_to_valid_tsv(fi, fo, sc, sp, call)
+            with gzip.open(po, "rt", encoding="utf-8", newline="") as f:
+                return f.read()
+        if via == "file":
+            with open(pi, "w", newline="", encoding="utf-8") as f:
+                f.write(text)
+            with open(pi, "r", encoding="utf-8") as fi, open(po, "w", newline="", encoding="utf-8") as fo:
+                _pin_to_valid_tsv(fi, fo, sc, sp, call)
+            with open(po, "r", newline="", encoding="utf-8") as f:
+                return f.read()
+        if via in ("main", "main-emptyout", "main-leftover"):
+            # the module opens both paths itself (default encoding, text mode)
             with open(pi, "w", newline="") as f:
                 f.write(text)
-            with open(pi, "r") as fi, open(po, "w", newline="") as fo:
-                _pin_to_valid_tsv(fi, fo, sc, sp, call)
+            if via != "main":
+                with open(po, "w", newline="") as f:
+                    f.write(leftover or "")
+            argv = [pi, po]
+            if call != "default":
+                argv += ["--sep_column=" + sc, "--sep_protein=" + sp]
+            _run_module_main(argv)
             with open(po, "r", newline="") as f:
                 return f.read()
-    out = io.StringIO()
-    _pin_to_valid_tsv(io.StringIO(text), out, sc, sp, call)
-    return out.getvalue()
+    raise ValueError(via)
 
 
 def _valid(text, via, sc=TAB, call="kw"):
-    if via == "file":
-        with tempfile.TemporaryDirectory() as d:
-            pi = os.path.join(d, "in.pin")
-            with open(pi, "w", newline="") as f:
+    if via == "stringio":
+        return bool(_is_valid_tsv(io.StringIO(text), sc, call))
+    if via == "wrapper":
+        return bool(_is_valid_tsv(io.TextIOWrapper(io.BytesIO(text.encode("utf-8")), encoding="utf-8"), sc, call))
+    if via == "spooled":
+        with tempfile.SpooledTemporaryFile(max_size=64, mode="w+", encoding="utf-8", newline="\n") as fi:
+            fi.write(text)
+            fi.seek(0)
+            return bool(_is_valid_tsv(fi, sc, call))
+    with tempfile.TemporaryDirectory() as d:
+        pi = os.path.join(d, "in.pin")
+        if via == "gzip":
+            with gzip.open(pi, "wt", encoding="utf-8", newline="") as f:
                 f.write(text)
-            with open(pi, "r") as fi:
+            with gzip.open(pi, "rt", encoding="utf-8") as fi:
                 return bool(_is_valid_tsv(fi, sc, call))
-    return bool(_is_valid_tsv(io.StringIO(text), sc, call))
+        if via == "file":
+            with open(pi, "w", newline="", encoding="utf-8") as f:
+                f.write(text)
+            with open(pi, "r", encoding="utf-8") as fi:
+                return bool(_is_valid_tsv(fi, sc, call))
+    raise ValueError(via)
 
 
 def _convert_line(line, idx, ncol, sc, sp, call):
@@ -349,16 +844,90 @@ def _parse_header(header, sc, call):
     return [int(r[0]), int(r[1])]
 
 
-def impl(c):
+class _StopAfterVerify(Exception):
+    pass
+
+
+_CLI_CACHE = {}
+
+
+def _run_cli(files, names):
+    """mokapot.main(<the files> ...) up to the end of its verify step -> (how it ended, text of every file afterwards as a
+    text-mode reader sees it)"""
+    key = lib.stable_hash([files, names])
+    if key in _CLI_CACHE:
+        return _CLI_CACHE[key]
+    import logging
+    import mokapot.mokapot as mm
+    with tempfile.TemporaryDirectory() as d:
+        paths = []
+        for nm, txt in zip(names, files):
+            pth = os.path.join(d, nm)
+            os.makedirs(os.path.dirname(pth), exist_ok=True)
+            with open(pth, "w", newline="") as f:          # default encoding: the one mokapot.main's open() uses
+                f.write(txt)
+            paths.append(pth)
+        old = mm.read_pin
+
+        def stop(*a, **k):
+            raise _StopAfterVerify()
+        mm.read_pin = stop
+        try:
+            try:
+                mm.main(paths + ["--dest_dir", os.path.join(d, "out"), "--verbosity", "0"])
+                end = "returned"
+            except _StopAfterVerify:
+                end = "verified"
+            except BaseException as e:  # noqa
+                if isinstance(e, (KeyboardInterrupt, MemoryError)):
+                    raise
+                end = "raised:" + lib.err_kind(e)
+        finally:
+            mm.read_pin = old
+            logging.disable(logging.CRITICAL)
+        contents = []
+        for pth in paths:
+            try:
+                with open(pth, "r") as f:
+                    contents.append(f.read())
+            except Exception as e:  # noqa
+                contents.append("<unreadable: %s>" % type(e).__name__)
+    if len(_CLI_CACHE) > 64:
+        _CLI_CACHE.clear()
+    _CLI_CACHE[key] = (end, contents)
+    return end, contents
+
+
+def _cli(files, names, k):
+    end, contents = _run_cli(files, names)
+    if end.startswith("raised:") and k == len(files) - 1:
+        return ("err", end[len("raised:"):])
+    if end == "returned":
+        return ("err", "main-returned-without-reading")
+    return ("ok", contents[k])
+
+
+_RESULTS = []           # (case, implementation result) of this process, for the oracle sweep of extra_checks
+
+
+def _impl(c):
     sc, sp, call = _seps(c)
     fn = c["fn"]
     if fn == "convert_file":
-        return call_impl(_convert, c["text"], c.get("via", "stringio"), sc, sp, call)
+        return call_impl(_convert, c["text"], c.get("via", "stringio"), sc, sp, call, c.get("leftover"))
     if fn == "is_valid":
         return call_impl(_valid, c["text"], c.get("via", "stringio"), sc, call)
     if fn == "convert_line":
         return call_impl(_convert_line, c["line"], c["idx"], c["ncol"], sc, sp, call)
+    if fn == "cli":
+        return _cli(c["files"], c["names"], c["k"])
     return call_impl(_parse_header, c["header"], sc, call)
+
+
+def impl(c):
+    r = _impl(c)
+    _RESULTS.append((c, r))
+    return r
 
 
 def same(c, m, i):
@@ -366,17 +935,27 @@ def same(c, m, i):
 
 
 def nontrivial(c):
-    sc, sp, _ = _seps(c)
-    if (sc, sp) != (TAB, ":"):
-        return True
+    fn = c["fn"]
+    tags = c.get("tags", [])
+    if fn == "parse_header":
+        return c["header"].strip() != ""
+    if fn == "convert_line":
+        if c.get("row") is not None:
+            return len(c["row"]["prots"]) >= 2
+        return len(c["line"].split(c.get("sc", TAB))) >= 2
     st = c.get("struct")
-    if st is None:
-        tags = c.get("tags", [])
-        return "malformed" in tags or "line-random" in tags or "header" in tags or \
-            (c.get("row") is not None and len(c["row"]["prots"]) >= 2)
-    return any(len(r["prots"]) >= 2 for r in st["rows"]) or len(st["hdr_post"]) > 0
+    if st is not None:
+        return bool(st["rows"]) and (_multi(st) or st["dd"] is not None)
+    if "tsv-of-structured" in tags:
+        return bool(c.get("src_multi"))
+    if fn == "cli":
+        t = _universal(c["files"][c["k"]])
+    else:
+        t = _model_text(c)
+    return len([l for l in t.split("\n") if l.strip()]) >= 2
 
 
+# ------------------------------------------------------------------------------------------------ the property
 def _spec_valid(text, sc=TAB):
     """the property's own definition of validity (independent of the code)"""
     lines = text.split("\n")
@@ -396,6 +975,11 @@ def oracle(c, i):
     st = c.get("struct")
     if c["fn"] == "convert_file" and st is not None:
         exp = expected_tsv(st, sc, sp)
+        if c.get("via") == "main-leftover" and c.get("leftover"):
+            if tuple(i) != ("ok", exp):
+                return (f"pin_to_tsv.main() with an output path that already holds {c['leftover']!r}: the output file is not "
+                        f"the rectangular table: got {i!r}, expected {exp!r}")
+            return None
         if tuple(i) != ("ok", exp):
             return (f"conversion of a well-formed PIN (sep_column={sc!r}, sep_protein={sp!r}) is not the expected "
                     f"rectangular table: got {i!r}, expected {exp!r}")
@@ -410,6 +994,12 @@ def oracle(c, i):
         if again != ("ok", exp):
             return f"conversion is not idempotent: {again!r}"
         return None
+    if c["fn"] == "is_valid" and st is not None and st["rows"]:
+        want = (not _multi(st)) and st["dd"] is None
+        if tuple(i) != ("ok", want):
+            return (f"is_valid_tsv returned {i!r} for a PIN that " + ("is rectangular and has no DefaultDirection line"
+                    if want else "has a DefaultDirection line or a PSM with several proteins"))
+        return None
     if c["fn"] == "convert_line" and c.get("row") is not None:
         r = c["row"]
         exp = sc.join(r["pre"] + [sp.join(r["prots"])] + r["post"])
@@ -417,28 +1007,161 @@ def oracle(c, i):
             return (f"line conversion (sep_column={sc!r}, sep_protein={sp!r}) does not keep the other fields and join "
                     f"the proteins: got {i!r}, expected {exp!r}")
         return None
-    if c["fn"] == "is_valid" and "\r" not in c["text"] and "\x0b" not in c["text"] and "\x1c" not in c["text"] \
-            and sc != "\n":
-        sv = _spec_valid(c["text"], sc)
-        if sv is not None and i[0] == "ok" and bool(i[1]) != sv:
-            return f"is_valid_tsv returned {i[1]} but the text is {'valid' if sv else 'invalid'} by definition"
+    if c["fn"] == "cli" and st is not None:
+        # after the verify step the user's file holds the rectangular table (it is left alone if it was one)
+        txt = _universal(c["files"][c["k"]])
+        exp = expected_tsv(st, TAB, ":") if (_multi(st) or st["dd"] is not None) else txt
+        if tuple(i) != ("ok", exp):
+            return (f"after mokapot's verify step file {c['k']} ({c['names'][c['k']]!r}, {c['kind']}) of {len(c['files'])} does "
+                    f"not hold the expected table: got {i!r}, expected {exp!r}")
+        return None
+    if c["fn"] == "is_valid":
+        t = _model_text(c)
+        if "\r" not in t and "\x0b" not in t and "\x1c" not in t and sc != "\n":
+            sv = _spec_valid(t, sc)
+            if sv is not None and i[0] == "ok" and bool(i[1]) != sv:
+                return f"is_valid_tsv returned {i[1]} but the text is {'valid' if sv else 'invalid'} by definition"
     return None
+
+
+def finding_key(c, m, i):
+    """structural key of the two known defects of /repo; the key is given only when the observed result has exactly the
+    known shape, so that any other wrong result on the same inputs is still reported"""
+    st = c.get("struct")
+    if c.get("fn") == "convert_file" and c.get("via") == "main-leftover" and c.get("leftover") and st is not None:
+        sc, sp, _ = _seps(c)
+        if tuple(i) == ("ok", c["leftover"] + expected_tsv(st, sc, sp)):
+            return KEY_MAIN_APPEND
+        return None
+    if st is not None and not st["rows"] and c.get("fn") in ("convert_file", "is_valid"):
+        if m is not None and lib.jsonable(m) != lib.jsonable(i):
+            return None
+        sc, sp, _ = _seps(c)
+        if c["fn"] == "convert_file":
+            known = ("ok", expected_tsv(st, sc, sp)) if st["dd"] is not None else ("err", "StopIteration")
+        else:
+            known = ("ok", False) if st["dd"] is not None else ("err", "StopIteration")
+        return KEY_ZERO if tuple(i) == known else None
+    return None
+
+
+# ------------------------------------------------------------------------------------------------ oracle-only inputs
+def _oracle_only_cases(ctx):
+    """inputs the extracted model is not run on: very long lines, multi-character sep_column"""
+    rng = ctx.sub("oracle-only")
+    cases = []
+    # PSM lines of 70-300 KiB
+    sizes = [3000, 5000] + ([12000, 4000, 8000] if ctx.thorough else [])
+    for k, nprot in enumerate(sizes):
+        st = _big_struct(rng.randint(3, 40), rng.randint(0, 3), k % 2, multi_at=0, nprot=nprot, final_nl=(k % 3 != 2))
+        at = rng.randrange(len(st["rows"]))
+        st["rows"][0]["prots"], st["rows"][at]["prots"] = st["rows"][at]["prots"], st["rows"][0]["prots"]
+        via = ["file", "stringio", "gzip", "wrapper", "spooled"][k % 5]
+        sc, sp, call = [(TAB, ":", "default"), (",", "|||", "kw")][k % 2]
+        for c in _mk(st, sc, sp, call, via)[:2]:
+            c["tags"] = ["oracle-only", "huge-line", "line>%dk" % (max(len(l) for l in c["text"].split("\n")) // 1024), via]
+            cases.append(c)
+    # multi-character column separators
+    for k in range(120 if ctx.thorough else 40):
+        sc = rng.choice(["||", ", ", "<>", "\t\t", "::"])
+        sp = rng.choice([":", ";", "|||", "", "/"])
+        alpha = "abXYZ019._+-"
+
+        def field():
+            return "".join(rng.choice(alpha) for _ in range(rng.randint(1, 5)))
+        npre, npost = rng.randint(0, 4), rng.randint(0, 2)
+        rows = [{"pre": [field() for _ in range(npre)], "prots": [field() for _ in range(rng.choice([1, 1, 2, 3, 6]))],
+                 "post": [field() for _ in range(npost)]} for _ in range(rng.randint(1, 5))]
+        st = {"hdr_pre": ["c%d" % j for j in range(npre)], "hdr_post": ["d%d" % j for j in range(npost)],
+              "dd": (DD + (sc + "-") * (npre + npost)) if rng.random() < 0.4 else None, "rows": rows,
+              "final_nl": rng.random() < 0.6}
+        call = rng.choice(["kw", "pos"])
+        for c in _mk(st, sc, sp, call, "file" if k % 3 == 0 else "stringio")[:2] + _line_cases(st, sc, sp, call)[:1]:
+            c["tags"] = ["oracle-only", "multi-char-sep_column", f"sc={sc!r}"]
+            cases.append(c)
+    return cases
+
+
+def extra_checks(ctx):
+    """(a) the property oracle on every structured / cli / is_valid case of the run (results cached by impl());
+    (b) inputs that are checked by the property oracle alone."""
+    fails = []
+    info = {"oracle_sweep_cases": 0, "oracle_only_cases": 0, "oracle_only_distribution": {}}
+    todo = [(c, i, False) for c, i in _RESULTS if c.get("struct") is not None or c["fn"] in ("is_valid", "cli")]
+    for c in _oracle_only_cases(ctx):
+        todo.append((c, _impl(c), True))
+        for t in c["tags"]:
+            info["oracle_only_distribution"][t] = info["oracle_only_distribution"].get(t, 0) + 1
+    seen_keys = set()
+    for c, i, only in todo:
+        info["oracle_only_cases" if only else "oracle_sweep_cases"] += 1
+        try:
+            msg = oracle(c, i)
+        except Exception as e:  # noqa: a crashing oracle is a defect of this harness and must not go unnoticed
+            msg = f"the property oracle crashed: {type(e).__name__}: {e}"
+        if not msg:
+            continue
+        key = finding_key(c, None, i)
+        if key is not None:
+            if key in seen_keys:
+                continue
+            seen_keys.add(key)
+        elif len(fails) >= 25:
+            continue
+        small = c if len(json.dumps(lib.jsonable(c))) < 2000000 else {k: v for k, v in c.items() if k not in ("text", "struct")}
+        f = {"what": msg[:1500], "failing_input": small}
+        if key is not None:
+            f["key"] = key
+        fails.append(f)
+    _RESULTS.clear()
+    return fails, info
 
 
 def shrink(c):
     sc, sp, call = _seps(c)
+    if c["fn"] == "cli":
+        k = c["k"]
+        if len(c["files"]) > 1:
+            yield dict(c, files=[c["files"][k]], names=[c["names"][k]], k=0)
+            for j in range(len(c["files"])):
+                if j != k:
+                    yield dict(c, files=c["files"][:j] + c["files"][j + 1:], names=c["names"][:j] + c["names"][j + 1:],
+                               k=k - (1 if j < k else 0))
+        st = c.get("struct")
+        if st is not None and len(st["rows"]) > 1 and "\r" not in c["files"][k]:
+            for r in range(len(st["rows"])):
+                s2 = dict(st, rows=st["rows"][:r] + st["rows"][r + 1:])
+                yield dict(c, struct=s2, files=c["files"][:k] + [render(s2, TAB)] + c["files"][k + 1:])
+        return
     st = c.get("struct")
     if st is not None:
+        crlf = "crlf" in c.get("tags", [])
+
+        def txt(s2):
+            t = render(s2, sc)
+            return t.replace("\n", "\r\n") if crlf else t
         # drop rows / the DefaultDirection line
-        for k in range(len(st["rows"])):
-            if len(st["rows"]) > 1:
+        n = len(st["rows"])
+        if n > 16:
+            for a, b in ((0, n // 2), (n // 2, n)):
+                s2 = dict(st, rows=st["rows"][a:b])
+                yield dict(c, struct=s2, text=txt(s2))
+        for k in range(min(n, 60)):
+            if n > 1:
                 s2 = dict(st, rows=st["rows"][:k] + st["rows"][k + 1:])
-                yield dict(c, struct=s2, text=render(s2, sc))
+                yield dict(c, struct=s2, text=txt(s2))
         if st["dd"] is not None:
             s2 = dict(st, dd=None)
-            yield dict(c, struct=s2, text=render(s2, sc))
+            yield dict(c, struct=s2, text=txt(s2))
         return
     if "text" in c:
-        txt = c["text"]
-        for k in range(len(txt)):
-            yield dict(c, text=txt[:k] + txt[k + 1:])
+        t = c["text"]
+        if len(t) > 4000:
+            ls = t.split("\n")
+            body = ls[1:]
+            h = len(body) // 2
+            yield dict(c, text="\n".join(ls[:1] + body[h:]))
+            yield dict(c, text="\n".join(ls[:1] + body[:h]))
+            return
+        for k in range(len(t)):
+            yield dict(c, text=t[:k] + t[k + 1:])
